@@ -6,7 +6,7 @@ HERE = os.path.dirname(os.path.abspath(__file__))
 
 # label prefix -> scenarios that exercise the behaviour the obligation pins down
 FAMILIES = [
-    ("lifecycle.", ["lifecycle_basic", "drop_refs", "kill_preempt", "idle_handler", "run_err", "start_fail", "stop_err_on_kill"]),
+    ("lifecycle.", ["lifecycle_basic", "drop_refs", "kill_preempt", "idle_handler", "run_err", "start_fail", "stop_err_on_kill", "hook_panics"]),
     ("handle_message.", ["lifecycle_basic", "ask_reply_integrity", "metrics_counts"]),
     ("tell_with_timeout.", ["timeout_full_mailbox", "sends_to_stopped"]),
     ("ask_with_timeout.", ["timeout_full_mailbox", "sends_to_stopped"]),
@@ -30,6 +30,7 @@ FAMILIES = [
     ("hook.", ["lifecycle_basic", "dd_cycles"]),
     ("has_path.", ["dd_cycles", "dd_no_residue", "dd_cycle_first_edge_parked"]),
     ("wait_for_guard.", ["dd_no_residue", "dd_cycles"]),
+    ("framework.hook_panics_must_propagate", ["hook_panics"]),
     ("framework.no_unexpected_panic", ["ask_reply_integrity", "kill_preempt", "dd_no_residue"]),
     ("mutex.", ["dd_cycles"]),
     ("panic_site.", ["dd_cycles", "dd_no_residue"]),
